@@ -504,8 +504,8 @@ func cacheEngine(c *Ctx) {
 	for k := 0; k < 3; k++ {
 		cacheForeignOrder(c, fmt.Sprintf("cache-foreign %d", k))
 	}
-	for i, how := range []string{"dangling", "dangling2", "readonly", "dangling", "readonly", "dangling2"} {
-		cacheCommitFails(c, fmt.Sprintf("cache-commitfails %s %s %s", []string{"tar", "zip"}[i%2], how, []string{"none", "copy", "mount", "copy", "none", "none"}[i]))
+	for i, how := range []string{"dangling", "dangling2", "readonly", "dangling", "readonly", "dangling2", "xdev", "xdev"} {
+		cacheCommitFails(c, fmt.Sprintf("cache-commitfails %s %s %s", []string{"tar", "zip"}[i%2], how, []string{"none", "copy", "mount", "copy", "none", "none", "none", "copy"}[i]))
 	}
 	n := 25
 	if c.Tier == "thorough" {
@@ -624,6 +624,20 @@ func cacheCommitFails(c *Ctx, op string) {
 	os.MkdirAll(filepath.Join(src, "d"), 0755)
 	os.MkdirAll(wh, 0755)
 	os.WriteFile(filepath.Join(src, "d", "f"), []byte("content "+op), 0644)
+	if how == "xdev" { // a fileset larger than the file system the shelves will live on
+		x := uint32(77)
+		big := make([]byte, 150000)
+		for j := range big {
+			x = x*1664525 + 1013904223
+			big[j] = byte(x >> 24)
+		}
+		for _, n := range []string{"big1", "big2", "big3", "big4"} {
+			os.WriteFile(filepath.Join(src, "d", n), big, 0644)
+		}
+	}
+	for _, p := range []string{"d/f", "d", "."} {
+		os.Chtimes(filepath.Join(src, p), time.Unix(1e9, 0), time.Unix(1e9, 0))
+	}
 	os.Setenv("RIO_CACHE", cache)
 	os.Setenv("RIO_BASE", filepath.Join(base, "riobase"))
 	ctx := context.Background()
@@ -643,6 +657,14 @@ func cacheCommitFails(c *Ctx, op string) {
 	case "dangling2":
 		os.MkdirAll(shard, 0755)
 		os.Symlink("nowhere", filepath.Join(shard, id.Hash[3:6]))
+	case "xdev":
+		// the shelves live on a file system of their own (a mount below the cache root), smaller than the fileset: the
+		// commit rename from the cache root's temp dir fails with EXDEV
+		if syscall.Mount("tmpfs", filepath.Join(cache, fmtName), "tmpfs", 0, "size=256k") != nil {
+			c.H("cache-commitfails:skipped")
+			return
+		}
+		defer syscall.Unmount(filepath.Join(cache, fmtName), syscall.MNT_DETACH)
 	case "readonly":
 		if syscall.Mount(filesetDir, filesetDir, "", syscall.MS_BIND, "") != nil {
 			c.H("cache-commitfails:skipped")
@@ -668,6 +690,14 @@ func cacheCommitFails(c *Ctx, op string) {
 	case uerr != nil:
 		if cat := catOf(uerr); !strings.HasPrefix(cat, "rio-") {
 			c.PropFail("uncategorized-error", "the failed commit onto the shelf ("+how+") is reported without a category: "+uerr.Error(), op)
+		}
+		// a shelf left behind by the failed unpack holds the complete fileset, or it is not there
+		if _, e := os.Lstat(shelf); e == nil {
+			want, _ := Snapshot(src)
+			have, _ := Snapshot(shelf)
+			if want.Digest(false) != have.Digest(false) {
+				c.PropFail("shelf-not-verified", fmt.Sprintf("the unpack failed (%s: %s) and left a shelf for %s that does not hold the ware's fileset: %s", how, catOf(uerr), got, DiffFilesets(want, have, false)), op)
+			}
 		}
 	default:
 		if _, e := os.Stat(filepath.Join(shelf, "d", "f")); e != nil {
